@@ -73,8 +73,6 @@ package core
 //@   loop 2: invariant range: -1 <= rangeindex && rangeindex < len(rawIndices)
 //@   loop 2: invariant inter: forall i mathint :: 0 <= i && i < 8192 ==> (bit(*innerMatches, i) <==> (forall j int :: 0 <= j && j <= rangeindex ==> bit(f.bitmap[rawIndices[j] % 8192], i)))
 //@   loop 2: invariant lens: blen(*out) == 8192 && blen(*innerMatches) == 8192
-//@   loop 2: invariant outer_only: forall i mathint :: 0 <= i && i < 8192 && bit(*out, i) ==> (exists kk int :: 0 <= kk && kk < index && keyRow(f, keys[kk], i))
-//@   loop 2: invariant outer_all: forall i mathint, kk int :: 0 <= i && i < 8192 && 0 <= kk && kk < index && keyRow(f, keys[kk], i) ==> bit(*out, i)
 //@   callsite InPlaceUnion@*: inner_is_row: forall i mathint :: 0 <= i && i < 8192 ==> (bit(*compare, i) <==> keyRow(f, key, i))
 //@   ensures all_when_no_keys: result == nil && len(keys) == 0 ==> (forall i mathint :: 0 <= i && i < 8192 ==> bit(*out, i))
 //@   ensures union: result == nil && len(keys) > 0 ==> (forall i mathint :: 0 <= i && i < 8192 ==> (bit(*out, i) <==> (exists kk int :: 0 <= kk && kk < len(keys) && keyRow(f, keys[kk], i))))
@@ -367,7 +365,7 @@ package core
 //@   props C07
 //@   arith int
 //@   nosafe
-//@   assigns calls_BucketPut, arg_BucketPut_database, arg_BucketPut_key, arg_BucketPut_value
+//@   assigns calls_BucketPut, arg_BucketPut_database, arg_BucketPut_value
 //@   callsite Put@*: through_the_writer: $1 == w
 //@   loop 1: invariant one_lookup_per_transaction: calls_BucketPut == old(calls_BucketPut) + rangeindex + 1 && rangeindex + 1 <= len(transactions)
 //@   ensures lookups_and_combined_entry: result == nil ==> calls_BucketPut == old(calls_BucketPut) + len(transactions) + 1
